@@ -34,13 +34,34 @@ type srunCase struct {
 	Include     string            `json:"include"` // none (no WithInclude) | all | odd | even | ida
 	UpdatesOnly bool              `json:"updates_only"`
 	Taken       int               `json:"taken"`
-	Writes      []string          `json:"writes"` // "u:<id>:<val>" | "x:<id>"
+	Writes      []string          `json:"writes"` // "u:<id>:<val>" | "x:<id>" | "r:<id>:<val>" (an overtaken create, see rivalCreate)
+	BP          []bool            `json:"bp,omitempty"` // the reader's backpressure options as a LIST (the last one decides: always false here)
+}
+
+// rivalCreate: `Update(id, val, WithCreateIfAbsent())` that is OVERTAKEN — from its own InterceptBefore callback
+// (which the code runs between the first read and the commit, no lock held) a rival writer adds the item with
+// the empty message; the overtaken write still goes through (what is stored equals its provisional message)
+// and is then an UPDATE of an item every subscriber has been told about, not a second ADD.  When the item
+// exists already the rival's Add fails and the write is an ordinary update.
+func rivalCreate(col *resource.Collection, id, val string) error {
+	ran := false
+	_, err := col.Update(id, wrapperspb.String(val), resource.WithCreateIfAbsent(), resource.InterceptBefore(func(old, change proto.Message) {
+		if ran {
+			return
+		}
+		ran = true
+		_, _ = col.Add(id, wrapperspb.String(""))
+	}))
+	return err
 }
 
 func (c srunCase) key() string {
 	uo := ""
 	if c.UpdatesOnly {
 		uo = "!"
+	}
+	if len(c.BP) > 0 {
+		uo += fmt.Sprint(c.BP)
 	}
 	return fmt.Sprintf("%s/%s%s/%d/%s", showView(c.Start), c.Include, uo, c.Taken, strings.Join(c.Writes, " "))
 }
@@ -93,6 +114,7 @@ func (c srunCase) runCode(b *pipeBudget) (obs srunObs) {
 	if c.UpdatesOnly {
 		ropts = append(ropts, resource.WithUpdatesOnly(true))
 	}
+	ropts = append(ropts, bpOptions(c.BP)...)
 	ch := col.Pull(ctx, ropts...)
 	recv := func(wait time.Duration) string {
 		t := time.NewTimer(wait)
@@ -128,6 +150,9 @@ func (c srunCase) runCode(b *pipeBudget) (obs srunObs) {
 			if p[0] == "x" {
 				_, err := col.Delete(p[1])
 				return err
+			}
+			if p[0] == "r" {
+				return rivalCreate(col, p[1], p[2])
 			}
 			_, err := col.Update(p[1], wrapperspb.String(p[2]), resource.WithCreateIfAbsent())
 			return err
@@ -179,6 +204,15 @@ func (c srunCase) monitor(m *lib.Monitor, obs srunObs) {
 	sig := "C09/Collection/slow-reader"
 	if c.Include != "none" && c.Include != "all" {
 		sig += "/include"
+	}
+	if len(c.BP) > 1 {
+		sig += "/option-list"
+	}
+	for _, w := range c.Writes {
+		if strings.HasPrefix(w, "r:") {
+			sig += "/overtaken-create"
+			break
+		}
 	}
 	if obs.TakeFailed != "" {
 		m.Violate(sig+"/not-delivered", "a lossy subscriber did not get the events it is owed before any write was made (seeds)", c, "an event", obs.TakeFailed)
@@ -243,12 +277,15 @@ func genSrunCases(f lib.Flags) []srunCase {
 		include string
 		uo      bool
 		L       int
+		bp      []bool
 	}
 	one, two, none := map[string]string{"a": "a0"}, map[string]string{"a": "a0", "b": "b1"}, map[string]string{}
 	cfgs := []cfg{
-		{one, "even", false, f.N(4, 5)}, {one, "odd", false, f.N(4, 5)}, {two, "even", false, f.N(4, 5)}, {two, "odd", false, f.N(3, 4)},
-		{one, "none", false, f.N(4, 5)}, {two, "none", false, f.N(3, 4)}, {none, "none", false, f.N(3, 4)}, {none, "even", false, f.N(3, 4)},
-		{two, "ida", false, f.N(3, 4)}, {one, "all", false, f.N(3, 4)}, {two, "even", true, f.N(3, 4)}, {one, "none", true, f.N(3, 4)},
+		{one, "even", false, f.N(4, 5), nil}, {one, "odd", false, f.N(4, 5), nil}, {two, "even", false, f.N(4, 5), nil}, {two, "odd", false, f.N(3, 4), nil},
+		{one, "none", false, f.N(4, 5), nil}, {two, "none", false, f.N(3, 4), nil}, {none, "none", false, f.N(3, 4), nil}, {none, "even", false, f.N(3, 4), nil},
+		{two, "ida", false, f.N(3, 4), nil}, {one, "all", false, f.N(3, 4), nil}, {two, "even", true, f.N(3, 4), nil}, {one, "none", true, f.N(3, 4), nil},
+		// the reader's backpressure setting as an option list whose last element says "no backpressure"
+		{one, "none", false, f.N(2, 3), []bool{false}}, {one, "none", false, f.N(3, 4), []bool{true, false}}, {two, "odd", false, f.N(2, 3), []bool{false, true, false}},
 	}
 	for _, g := range cfgs {
 		inc := g.include
@@ -263,7 +300,7 @@ func genSrunCases(f lib.Flags) []srunCase {
 			var rec func(n int, view map[string]string, t int, prefix []string)
 			rec = func(n int, view map[string]string, t int, prefix []string) {
 				if len(prefix) > 0 {
-					cases = append(cases, srunCase{Kind: "srun", Start: g.start, Include: g.include, UpdatesOnly: g.uo, Taken: taken, Writes: append([]string{}, prefix...)})
+					cases = append(cases, srunCase{Kind: "srun", Start: g.start, Include: g.include, UpdatesOnly: g.uo, Taken: taken, Writes: append([]string{}, prefix...), BP: g.bp})
 				}
 				if n == 0 {
 					return
@@ -279,6 +316,12 @@ func genSrunCases(f lib.Flags) []srunCase {
 						w := copyView(view)
 						delete(w, id)
 						rec(n-1, w, t+1, append(prefix, "x:"+id))
+					} else {
+						// an overtaken create (a rival adds the item from the write's own callback)
+						w := copyView(view)
+						val := fmt.Sprintf("%s%d", id, 2*t+t%2)
+						w[id] = val
+						rec(n-1, w, t+1, append(prefix, "r:"+id+":"+val))
 					}
 				}
 			}
